@@ -166,7 +166,8 @@ def _ids_job(args):
 def _roundtrip(args):
     """references produced by instance 1 come back from the exchange into instance 2 (same strategies by
     name, plus one it does not know): adoption into the right strategy, updates attributed to that order only."""
-    own, sep = args
+    own, sep = args[:2]
+    late = args[2] if len(args) > 2 else ()
     from flumine import BaseStrategy
     from flumine.events import events
     from betfairlightweight.resources.bettingresources import CurrentOrders
@@ -189,12 +190,21 @@ def _roundtrip(args):
             ins = o.create_place_instruction()
             b = ex.new_bet("1.100000001", ins, "verif")
             bets.append(b)
+        fw = w.framework
+        if late:
+            # strategies registered AFTER order-stream updates have already been processed: their references must
+            # resolve as well (a first delivery happens before they are added, the full one afterwards)
+            ex.publish("1.100000001", bets[:2])
+            while ex.snap_queue:
+                w.do(("D",))
+            _, LiveScripted = livex.live_classes()
+            for nm in late:
+                fw.add_strategy(LiveScripted(w, market_filter={"marketIds": w.markets}, name=nm, max_order_exposure=None, max_selection_exposure=None))
         ex.publish("1.100000001", bets)
         while ex.snap_queue:
             w.do(("D",))
-        fw = w.framework
         by_name = {s.name: s for s in fw.strategies}
-        case = dict(own=list(own), sep=sep)
+        case = dict(own=list(own), sep=sep, late=list(late))
         for (st, o), b in zip(made, bets):
             counts["clause:C19.b"] += 1
             counts["roundtrip_refs"] += 1
@@ -258,6 +268,8 @@ def run(tier):
     for own in (("alpha",), ("alpha", "Beta-2"), ("Beta-2", "é漢", "alpha"), ("é漢",)):
         for sep in ("-", "_", "~", ":", "Z", "0") if thorough else ("-", "~", "0"):
             rj.append((own, sep))
+    rj.append((("é漢",), "-", ("alpha", "Beta-2")))
+    rj.append((("Beta-2", "é漢"), "~", ("alpha",)))
     for r in core.pmap(_roundtrip, rj, chunk=1):
         rep.add_violations(r["violations"])
         rep.merge_counts(r["counts"])
@@ -283,7 +295,7 @@ def run(tier):
 def replay(rep):
     c = rep["case"]
     if "own" in c:
-        r = _roundtrip((tuple(c["own"]), c["sep"]))
+        r = _roundtrip((tuple(c["own"]), c["sep"], tuple(c.get("late") or ())))
     elif "mode" in c:
         r = _ids_job((c["mode"], 2000))
     else:
